@@ -71,7 +71,7 @@ Proof.
     change (?a :: ?b :: ?l) with ([a; b] ++ l).
     rewrite !dotrow_app, IH1, IH2.
     destruct (interleave_get z (fst e)) as [G1 G2].
-    rewrite !dotrow_two. simpl fst; simpl snd. rewrite G1, G2.
+    rewrite !dotrow_two. cbn [fst snd]. unfold Adapters.cplx in *. rewrite G1, G2.
     unfold cadd, cmul; simpl. split; ring.
 Qed.
 
@@ -97,7 +97,7 @@ Proof.
   - destruct x as [|a x]; [reflexivity|]. simpl concat.
     rewrite IH.
     + apply firstn_skipn.
-    + rewrite skipn_length. simpl in *. lia.
+    + rewrite skipn_length. cbn [length] in *. lia.
 Qed.
 
 (* re-chunking loses nothing: of_blocks (to_blocks x) = x *)
